@@ -39,6 +39,33 @@ macro_rules! fork_impl {
                 }
             }
 
+            pub fn row(b: u8) -> String {
+                let spec = Op::<()>::from(b);
+                let disp = spec.to_string();
+                let back: u8 = spec.into();
+                let parsed: i32 = match Op::<()>::from_str(&disp) {
+                    Ok(o) => {
+                        let v: u8 = o.into();
+                        v as i32
+                    }
+                    Err(_) => 256,
+                };
+                format!(
+                    "{} {} {} {} {} {} {} {} {} {} {}",
+                    b,
+                    disp,
+                    spec.extra_len(),
+                    spec.pops(),
+                    spec.pushes(),
+                    spec.is_exit() as u8,
+                    spec.is_jump() as u8,
+                    spec.is_jump_target() as u8,
+                    spec.size(),
+                    back,
+                    parsed,
+                )
+            }
+
             pub fn from_slice(bytes: &[u8]) -> String {
                 match Op::<[u8]>::from_slice(bytes) {
                     Ok(op) => format!("ok {} {}", op.size(), {
@@ -149,6 +176,10 @@ pub fn run(args: &[&str]) -> String {
         "parse" => {
             let m = String::from_utf8(unhex(arg)).unwrap();
             by_fork!(fork, parse, &m)
+        }
+        "row" => {
+            let n: u8 = arg.parse().unwrap();
+            by_fork!(fork, row, n)
         }
         "new" => {
             let n: u8 = arg.parse().unwrap();
